@@ -345,7 +345,9 @@ def show_items_rle(items):
         if isinstance(v, str):
             out.append(["text", c01.show_name(k), rle(v)])
         else:
-            out.append(["file", c01.show_name(k), v.filename, c01.show_hdrs(v.headers), rle(v.read())])
+            # through every public reader (C01's file_bytes): the uploads here are large (beyond the 64 KiB copy buffer of
+            # save() and the 1 MiB spool of UploadFile)
+            out.append(["file", c01.show_name(k), v.filename, c01.show_hdrs(v.headers), rle(c01.file_bytes(v, lambda f: f.read()))])
             v.close()
     return out
 
